@@ -69,6 +69,8 @@ class C09(Prop):
                 # after its list was returned the same invocation suspends in ctx.wait_for_event (an approval): answered by the harness
                 # d seconds later, or left to its timeout; the step is then replayed from the top and must see the same list again
                 "wait_after": draw(st.sampled_from([None, None, None, ["reply", 0.5], ["reply", 2], ["timeout", 1], ["timeout", 3]])) if mode == "exact" else None,
+                # while its set is incomplete the collecting step returns a progress event (handled by a sink step) instead of None
+                "ack_incomplete": draw(st.sampled_from([False, False, True])),
                 "equal_payloads": draw(st.integers(0, 2)) == 0,
                 "retry_wait": draw(st.sampled_from([0, 0, 1, 2])),
                 "ties": draw(st.lists(st.integers(0, 7), max_size=10)),
@@ -123,6 +125,8 @@ class C09(Prop):
                 got = ctx.collect_events(ev, expected, case["buffer"])
                 if got is None:
                     inv["got"] = None
+                    if case.get("ack_incomplete"):
+                        return ge.E5(progress=True)
                     return None
                 inv["got"] = [(type(e).__name__, uid_of(e)) for e in got]
                 wa = case.get("wait_after")
@@ -156,6 +160,9 @@ class C09(Prop):
         async def fin(self, ctx, ev):
             return rec.mk("GStop", "ret", result="done")
 
+        async def sink(self, ctx, ev):
+            return None
+
         def ann(fn, name, ev_t, ret_t):
             fn.__name__ = name
             fn.__qualname__ = f"C09Wf.{name}"
@@ -170,7 +177,8 @@ class C09(Prop):
             "col": step(
                 num_workers=case["workers"],
                 retry_policy=rp.retry_policy(wait=rp.wait_fixed(case["retry_wait"]), stop=rp.stop_after_attempt(2)) if case["fail_once"] else None,
-            )(ann(col, "col", U[accepted] if len(accepted) > 1 else accepted[0], U[ge.E4, N])),
+            )(ann(col, "col", U[accepted] if len(accepted) > 1 else accepted[0], U[ge.E4, ge.E5, N] if case.get("ack_incomplete") else U[ge.E4, N])),
+            **({"sink": step(num_workers=4)(ann(sink, "sink", ge.E5, N))} if case.get("ack_incomplete") else {}),
             "nxt": step(ann(nxt, "nxt", ge.E4, U[ge.E0, ge.GStop, N])),
             "fin": step(ann(fin, "fin", ge.Fin, ge.GStop)),
         }
@@ -320,6 +328,8 @@ class C09(Prop):
         r.classes.append("mode_" + case["mode"])
         if case["fail_once"]:
             r.classes.append("fail_once")
+        if case.get("ack_incomplete"):
+            r.classes.append("progress_event_while_incomplete")
         if wa and any(inv.get("approved") for inv in log["col"]):
             r.classes.append("suspended_after_collect_" + wa[0])
         if case.get("equal_payloads"):
